@@ -390,6 +390,10 @@ func genPeerOn(rt *rapid.T, nm *hx.NodeMachine, cfg genCfg, parent int) hx.NOp {
 		s.Apply(tx, hx.Ring[op.Proposer].Address)
 		op.Txs = append(op.Txs, spec)
 	}
+	// sometimes the block arrives with a next link already filled in (the ledger has to ignore it)
+	if rapid.IntRange(0, 7).Draw(rt, "presetnext") == 0 {
+		op.PresetNext = true
+	}
 	// sometimes include transactions the node has pending
 	inclOdds := 2
 	if parent == nm.Ptr {
